@@ -484,7 +484,7 @@ func (fr *Frame) evalBin(e *CExpr, env *Env, hint *Sort) *GVal {
 			return tv(App(f[1], SBool, a, b))
 		}
 	case s == SF64:
-		m := map[string]string{"<": "fp.lt", "<=": "fp.leq", ">": "fp.gt", ">=": "fp.geq"}
+		m := map[string]string{"<": "f64.lt", "<=": "f64.leq", ">": "f64.gt", ">=": "f64.geq"}
 		if f, ok := m[op]; ok {
 			return tv(App(f, SBool, a, b))
 		}
